@@ -390,10 +390,13 @@ def _fold(prop, tier, seed, mod, lemmas, results, wall):
     evidence = {
         "property_id": prop, "tier": tier, "seed": seed, "level": level,
         "coverage": {
-            "evaluations": int(tot["paths"]) + sum(e.get("native_dry_runs", 0) for e in lemma_evidence),
+            # CrossHair paths + native dry runs + programs executed inside cells beyond the first of each path
+            "evaluations": int(tot["paths"]) + sum(e.get("native_dry_runs", 0) for e in lemma_evidence)
+                           + sum(max(0, e.get("reached_assertion_paths", 0) - e.get("paths", 0)) for e in lemma_evidence),
             "distinct_nontrivial": int(tot["reached"]),
             "rule": getattr(mod, "RULE", "") + " | evaluations = CrossHair execution paths (each a distinct "
-                    "solver-feasible branch history over the symbolic inputs) plus native dry runs; non-trivial = the path "
+                    "solver-feasible branch history over the symbolic inputs) plus native dry runs plus, for cell lemmas, the "
+                    "programs executed inside each cell; non-trivial = a distinct path or distinct program of a cell that "
                     "reached the lemma's assertion site (rt.reach) with its premise true.",
             "samples": samples or [{"note": "no sample recorded"}],
             "exhaustive": all(e["exhausted"] for e in lemma_evidence) and not harness_errors,
